@@ -12,7 +12,8 @@ cp -r /verif/checker/controls "$T/verif/checker/"
 bad=0
 while read -r c props; do
   rm -rf "$T/repo"; cp -r /repo "$T/repo"
-  (cd "$T/repo" && git revert --no-edit --no-commit "$c" >/dev/null 2>&1) || { echo "cannot revert $c (skipped)"; continue; }
+  # a+b reverts b together with a (b depends on a)
+  (cd "$T/repo" && git revert --no-edit --no-commit $(echo "$c" | tr '+' ' ') >/dev/null 2>&1) || { echo "cannot revert $c (skipped)"; continue; }
   for p in $props; do
     out=$(IONLINT_REPO="$T/repo" IONLINT_VERIF="$T/verif" /verif/bin/ionlint -property "$p" -tier quick 2>&1); rc=$?
     n=$(printf '%s\n' "$out" | grep -c '^  violation')
@@ -47,7 +48,7 @@ cc7d7ae C06
 73f3e19 C03
 5b435ac C06 C03
 84ffd44 C03
-2a11884 C10
+6bbdeea+2a11884 C10
 150fd1a C16
 6bbdeea C01 C04
 L
